@@ -573,11 +573,19 @@ def _candidate_defuse(ctx, chk):
         return
 
     def side(n):
+        # follow plain definitions: `r = rain[:-1]` ... `r & mask`
+        for _ in range(4):
+            if isinstance(n, ast.Name):
+                v = msflow.def_value(n)
+                if isinstance(v, ast.Subscript) and isinstance(v.slice, ast.Slice):
+                    n = v
+                    continue
+            break
         if isinstance(n, ast.Subscript) and isinstance(n.slice, ast.Slice):
             lo = ast.unparse(n.slice.lower) if n.slice.lower is not None else "0"
             up = ast.unparse(n.slice.upper) if n.slice.upper is not None else ""
-            return ("slice", ast.unparse(n.value), lo, up)
-        return ("whole", ast.unparse(n), "0", "")
+            return ("slice", n.value, lo, up)
+        return ("whole", n, "0", "")
 
     a, b = side(inter.left), side(inter.right)
     sl = a if a[0] == "slice" else b
@@ -585,21 +593,22 @@ def _candidate_defuse(ctx, chk):
     ok = sl[0] == "slice" and sl[2] == "0" and sl[3] == "-1" and wh[0] == "whole"
     # the sliced operand is the rain predicate, the whole operand the loop's jump mask
     rain_ok = False
-    if ok:
-        nm = sl[1]
-        for x in ast.walk(inter):
-            if isinstance(x, ast.Name) and x.id == nm:
-                v = msflow.def_value(x)
-                rain_ok = isinstance(v, ast.Compare)
-    chk.ob("C01.O5", ok and rain_ok, where_of(ms, inter), "overlap = %s" % ast.unparse(inter),
+    if ok and isinstance(sl[1], ast.Name):
+        v = msflow.def_value(sl[1])
+        rain_ok = isinstance(v, ast.Compare)
+    chk.ob("C01.O5", ok and rain_ok, where_of(ms, inter), "overlap = %s" % ast.unparse(msflow.expand(inter, keep=set(ms.params)))[:120],
            "rain[:-1] & jump_mask: step i overlaps increment i (both left-aligned)", key="match_storms|overlap-alignment",
            why="a shifted operand pairs a storm with a rise that shares no time step with it")
-    # the storms entered as candidates are those present in the intersection
-    cand_ok = False
-    for n in ast.walk(ms.node):
-        if isinstance(n, ast.For) and isinstance(n.iter, ast.Name):
-            v = msflow.def_value(n.iter)
-            if v is not None and "nonzero" in ast.unparse(msflow.expand(v)) and msflow.reaches(v, inter):
-                cand_ok = True
-    chk.ob("C01.O5", cand_ok, where_of(ms, inter), "candidate storms = storm indices at the non-zero positions of the overlap: %s" % cand_ok,
+    # the storms entered as candidates are those present in the intersection: some iteration
+    # (for loop or comprehension) runs over a value that reaches the overlap through nonzero()
+    cand_ok = None
+    iters = [n.iter for n in ast.walk(ms.node) if isinstance(n, ast.For)] + \
+            [g.iter for n in ast.walk(ms.node) if isinstance(n, (ast.GeneratorExp, ast.ListComp, ast.SetComp)) for g in n.generators]
+    for it in iters:
+        if msflow.reaches(it, inter):
+            cand_ok = "nonzero" in ast.unparse(msflow.expand(it)) or "where" in ast.unparse(msflow.expand(it))
+    if cand_ok is None:
+        chk.indeterminate("C01.O5", where_of(ms, inter), "no loop over the storms selected by the overlap found in match_storms")
+    else:
+      chk.ob("C01.O5", cand_ok, where_of(ms, inter), "candidate storms = storm indices at the non-zero positions of the overlap: %s" % cand_ok,
            "candidates are exactly the storms overlapping the rise", key="match_storms|candidates-from-overlap")
